@@ -4,6 +4,7 @@ import (
 	"context"
 	"fmt"
 	"net"
+	"reflect"
 	"time"
 
 	modbus "github.com/aldas/go-modbus-client"
@@ -68,6 +69,42 @@ func (s *Session) Call(r spec.Req, stream []byte, events []xport.Event) (out Out
 		out.Panic = out.Err.Error()
 		return out
 	}
+	return s.CallWith(q, stream, events)
+}
+
+// Readdress changes, in place, the transaction id (TCP requests) and the unit id of a request object the constructors returned - what a
+// program does that keeps one request value and updates it for every poll. It reports whether both fields were found.
+func Readdress(q packet.Request, tx uint16, unit uint8) bool {
+	v := reflect.ValueOf(q)
+	if v.Kind() != reflect.Ptr || v.IsNil() {
+		return false
+	}
+	found := 0
+	var walk func(x reflect.Value)
+	walk = func(x reflect.Value) {
+		if x.Kind() != reflect.Struct {
+			return
+		}
+		for i := 0; i < x.NumField(); i++ {
+			fl, name := x.Field(i), x.Type().Field(i).Name
+			switch {
+			case name == "TransactionID" && fl.CanSet() && fl.Kind() == reflect.Uint16:
+				fl.SetUint(uint64(tx))
+				found |= 1
+			case name == "UnitID" && fl.CanSet() && fl.Kind() == reflect.Uint8:
+				fl.SetUint(uint64(unit))
+				found |= 2
+			case fl.Kind() == reflect.Struct:
+				walk(fl)
+			}
+		}
+	}
+	walk(v.Elem())
+	return found&2 != 0
+}
+
+// CallWith is Call with a request object the caller keeps (and may have modified since the last call).
+func (s *Session) CallWith(q packet.Request, stream []byte, events []xport.Event) (out Outcome) {
 	out.Request, out.ReqBytes = q, append([]byte(nil), q.Bytes()...)
 	s.script.Reset(append([]byte(nil), stream...), append([]xport.Event(nil), events...), false)
 	if s.rec != nil {
